@@ -18,6 +18,9 @@ ALPHABETS = {
     'int16': [-7, 3, 11, 30000, -32768],
     'int32': [4, 1000, 70001, 2 ** 31 - 1, -99],
     'uint32': [6, 65537, 3000000000],
+    # NumPy's default integer type (np.argmax, np.random.randint give int64 label maps) and the smallest one
+    'int64': [4, 1000, 70001, 2 ** 40, -99],
+    'int8': [-7, 3, 11, 127, -128],
 }
 FILL_ARG = {'Rotate': 'mask_value', 'ShiftScaleRotate': 'mask_value', 'PadIfNeeded': 'mask_value',
             'CropAndPad': 'pad_cval_mask', 'CoarseDropout': 'mask_fill_value', 'GridDropout': 'mask_fill_value',
